@@ -3,7 +3,7 @@ import json
 import random
 import re
 
-from common import lean_obligations, build_harness, hx, load_findings
+from common import lean_obligations, build_harness, hx
 import lrfamily as lf
 import treeparse as tp
 import oracles
@@ -11,8 +11,6 @@ import oracles
 LEVEL = "proof"
 PROP_MODULE = "Rustemo.Props.C14"
 
-N1 = "C14-N1-relex-layout-discarded"
-N2 = "C14-N2-failed-layout-advances"
 
 # the stored layout is a sentence of the Layout rule (kinds of tools/gram.py)
 LAYOUT_RE = {"ws": re.compile(r"\s+\Z"), "comments": re.compile(r"(?:\s+|//[^\n]*)*\Z")}
@@ -106,7 +104,8 @@ def gen(rng, tier):
 
 # ---------------------------------------------------------------------------------------------
 # directed family: content tokens that share a prefix with layout, LALR-merged lookaheads, layout
-# rules that can fail half way or are not idempotent (the classes of C14-N1 / C14-N2)
+# rules that can fail half way or are not idempotent (the classes of the repaired findings C14-N1 /
+# C14-N2: layout skipped on re-lexing after a reduce, failed layout parse). Everything must round-trip.
 # ---------------------------------------------------------------------------------------------
 
 def collide_templates(rng):
@@ -165,7 +164,8 @@ def collide_cases(rng, tier):
 
 
 # ---------------------------------------------------------------------------------------------
-# LayoutCert: the executable hypothesis of C14_roundtrip_layout, evaluated per input by the driver
+# LayoutCert: `auto` = the (static) hypothesis of C14_roundtrip_layout; the per-offset conditions say which
+# inputs exercise the code paths repaired for C14-N1 / C14-N2 (`old=0`); evaluated per input by the driver
 # ---------------------------------------------------------------------------------------------
 
 def extra_requests(c):
@@ -181,7 +181,7 @@ def extra_requests(c):
 
 
 def layoutcerts(c):
-    """input index -> dict(static, nottoken, idem, failstays, ok) or None"""
+    """input index -> dict(auto, static, nottoken, idem, failstays, old) or None"""
     out = {}
     ex = getattr(c, "extra", None) or []
     for k, a in zip(getattr(c, "lc_idx", []), ex[2:]):
@@ -214,45 +214,33 @@ def check(rep, cases, proofs_ok):
                        "is not itself lexable as a token); + directed family `collide`: content tokens sharing a prefix with "
                        "layout (`/` vs `//`, `#` vs `##`, ' ' vs whitespace), LALR-merged lookaheads, Layout rules that fail "
                        "half way / are not idempotent, partial parse on and off; per Layout input the driver evaluates "
-                       "LayoutCert (hypothesis of C14_roundtrip_layout); distinct = (grammar, settings, input)")
-    known_keys = {f["key"] for f in load_findings() if f.get("status") == "known" and f.get("property") == "C14"}
-    certs = {}
+                       "LayoutCert (`auto`: hypothesis of C14_roundtrip_layout; `old=0`: the input exercises the paths repaired "
+                       "for C14-N1/N2); distinct = (grammar, settings, input)")
     unavailable = 0
+    answered = 0
+    auto_fail = []
     for c in cases:
         rep.count("layout_kind:" + str(layout_kind_of(c)) + (":" + c.tag if c.tag == "collide" else ""))
         lc = layoutcerts(c)
-        certs[id(c)] = lc
+        fam = "collide" if c.tag == "collide" else "generated"
         for k, v in lc.items():
-            fam = "collide" if c.tag == "collide" else "generated"
             if v is None:
                 unavailable += 1
                 continue
-            rep.count(f"layoutcert:{fam}:" + ("holds" if v["ok"] else "fails"))
-            for part in ("static", "nottoken", "idem", "failstays"):
-                if not v[part]:
+            answered += 1
+            if not v.get("auto", False):
+                auto_fail.append((c, k))
+            rep.count(f"layoutcert:{fam}:" + ("old_loop_lossless_too" if v.get("old") else "exercises_repaired_paths"))
+            for part in ("nottoken", "idem", "failstays"):
+                if not v.get(part, True):
                     rep.count(f"layoutcert:{fam}:{part}=0")
-            if v["ok"] and k < len(c.results) and lf.klass(c.results[k]) == "ok":
-                rep.count(f"layoutcert:{fam}:ok_parse_inside_theorem")
-            elif k < len(c.results) and lf.klass(c.results[k]) == "ok":
-                rep.count(f"layoutcert:{fam}:ok_parse_outside_theorem(oracle only)")
-    if any(certs[id(c)] for c in cases):
+            if k < len(c.results) and lf.klass(c.results[k]) == "ok":
+                rep.count(f"layoutcert:{fam}:ok_parse" + ("" if v.get("old") else ":repaired_paths"))
+    if answered or unavailable:
         rep.oblige("driver command layoutcert answers for every Layout input", unavailable == 0,
                    f"{unavailable} unanswered (Main.lean lacks the `layoutcert` dispatch line?)")
-
-    def known_class(c, k, why):
-        """a lost-bytes failure is inside C14-N1 / C14-N2 iff the Lean predicate LayoutCert is false for this
-        input in the sub-condition of that class (and the finding is listed as known)"""
-        if k is None or "reconstruct" not in why:
-            return None
-        v = certs[id(c)].get(k)
-        if not v or v["ok"] or not v["static"]:
-            return None
-        partial = c.inputs[k][1]
-        if not v["failstays"] and partial == "1" and N2 in known_keys:
-            return N2
-        if (not v["nottoken"] or not v["idem"]) and N1 in known_keys:
-            return N1
-        return None
+        rep.oblige("LayoutCert.autoOk holds on every Layout table (hypothesis of C14_roundtrip_layout)", not auto_fail,
+                   "; ".join(sorted({c.text[:60] for c, _ in auto_fail})[:3]))
 
     def orc(c):
         bad = oracle(c)
@@ -262,9 +250,11 @@ def check(rep, cases, proofs_ok):
             rep.count("certs_" + ("pass" if okc else "FAIL"))
             if not okc:
                 bad.append((None, "Cert.noShiftStop / Cert.structural fail on the compiler's table: hypotheses of C14_roundtrip not met"))
+        if any(cc is c for cc, _ in auto_fail):
+            bad.append((None, "LayoutCert.autoOk fails on the compiler's table: hypothesis of C14_roundtrip_layout not met"))
         return bad
     lf.evaluate(rep, cases, orc, proofs_ok, PROP_MODULE,
-                in_scope=lambda c: tp.parse_dump(c.dump)["conflicts"] == 0, known_class=known_class)
+                in_scope=lambda c: tp.parse_dump(c.dump)["conflicts"] == 0)
 
 
 def replay(rep, path):
